@@ -23,6 +23,10 @@ CHECKS = {
    "For every ordered pair of node classes (operand shapes 0, 1, 2, 2+run; implicit/explicit numerals) the real Item.__eq__ is run with layout and names poisoned and returns, on every path, exactly FP(self) = FP(other) where FP is an algebraic-datatype fingerprint built from the meaning-bearing attributes listed in the property statement (independent of _equality_attrs); reflexivity, symmetry and transitivity follow from term equality. clone_item is proved per class (type, content, layout, placeholder children, equal to and printing like the original once given the children's copies).",
    "A1-A10; numeric attributes compared as real numbers (Decimal/int equality is numeric); L-IND / L-Z paper and Lean lemmas.",
    "contract-based deductive verification: per-class-pair equality obligations against an ADT fingerprint in z3 (datatypes + sequences), read-frame by poisoning"),
+ "C10": ("proof", "3.C10",
+   "Per node class x 6 resolver configurations (targets AND / OR / boolean operation; Lucene-like mode with empty, OR or AND memory) the real UnknownOperationResolver visit is run with abstract children stubbed by the contract Res and must return a fresh node of the same type (the target for an implicit operation), with the input's position and layout, the resolved children in the same order and number, a fingerprint equal to the input's with implicit nodes relabelled, add_head inserted in front of exactly the 2nd.. operands of a resolved node, the input and the caller's context untouched (except the documented last_operation entry); a tree without implicit operations is copied (idempotence). Any add_head string, any attribute values, any number of operands.",
+   "A1-A10; boolean-meaning preservation is the paper consequence 'the result is the input relabelled'; the Lucene-mode statement 'AND throughout without explicit operators' follows on paper from the per-visit bookkeeping obligations.",
+   "contract-based deductive verification: per-class Res contract on the real transformer code with stubbed sub-term visits, ADT fingerprints with an uninterpreted relabelling function, z3"),
 }
 PENDING = {
 }
